@@ -131,6 +131,14 @@ func (im xlImporter) ImportFrom(p, dir string, m types.ImportMode) (*types.Packa
 	if pk, ok := im.w.tpkgs[p]; ok {
 		return pk, nil
 	}
+	if strings.HasPrefix(p, xlModule) && im.w.repo != "" {
+		// packages of the module are type-checked ONCE, by us (two copies of `dom` have different types)
+		pk, err := im.w.load(im.w.repo, strings.TrimPrefix(p, xlModule))
+		if err != nil {
+			return nil, err
+		}
+		return pk.pkg, nil
+	}
 	return im.base.ImportFrom(p, dir, m)
 }
 
